@@ -1259,6 +1259,19 @@ func vC03RunRaw(c vSx, res *vC03Res) {
 		if rcv.Size() > len(data) {
 			res.bad("size", fmt.Sprintf("decoded packet reports Size() %d > %d input bytes", rcv.Size(), len(data)))
 		}
+		// bytes consumed, measured independently: the least prefix that decodes to the same packet
+		if !p2 && e2 == nil && len(data) <= 400 {
+			want := vC03DumpPkt(rcv)
+			for n := 0; n <= len(data); n++ {
+				pre := vC03New(kind, tid)
+				if e3, p3 := vC03Unmarshal(pre, data[:n]); !p3 && e3 == nil && vC03PktEqual(vC03DumpPkt(pre), want) {
+					if rcv.Size() != n {
+						res.bad("consumed", fmt.Sprintf("%s decoded from %x consumed %d bytes (least prefix that decodes to the same packet), Size() = %d", vC03KindName(kind), data, n, rcv.Size()))
+					}
+					break
+				}
+			}
+		}
 		// what decoded is a fixed point: its own bytes decode, on a fresh receiver, to equal fields
 		if !p2 && e2 == nil {
 			again := vC03New(kind, tid)
@@ -1836,6 +1849,76 @@ func vC03RunReuse(c vSx, res *vC03Res) {
 	res.obs = vOk(vLs(out))
 }
 
+// case (7 kind tid mtype (pkt...) xbody): a grammar-derived, canonical command body without
+// trailing bytes, into UnmarshalBinary and into DecodeMessage.  Every successful decode must
+// have consumed the whole body: Size() == len(body) and MarshalBinary() == body.
+func vC03RunGrammar(c vSx, res *vC03Res) {
+	if len(c.l) != 6 || !c.l[1].isInt() || !c.l[2].isInt() || !c.l[3].isInt() || !c.l[4].isList() || !c.l[5].isBytes() {
+		res.obs = vL(vZ(-1))
+		return
+	}
+	kind, tid, mt, body := c.l[1].int(), c.l[2].u64(), MessageType(c.l[3].u64()), c.l[5].b
+	rcv := vC03New(kind, tid)
+	if rcv == nil || kind > 6 {
+		res.obs = vL(vZ(-1))
+		return
+	}
+	res.hist = "grammar-" + vC03KindName(kind)
+	judge := func(what string, pk Packet, err error, pan bool) {
+		if pan {
+			res.bad("no-panic", fmt.Sprintf("%s of the body %x panicked", what, body))
+			return
+		}
+		if err != nil {
+			return
+		}
+		res.hist = "grammar-" + vC03KindName(kind) + "-ok"
+		b, e2, p2 := vC03MarshalPk(pk)
+		if got := vC03DumpPkt(pk); got.kind != kind {
+			// dispatched to another codec (the name position carries something else): that codec
+			// may read fewer fields; the bytes consumed are the least prefix that decodes to the
+			// same packet
+			for n := 0; n <= len(body); n++ {
+				pre := vC03New(got.kind, got.tid)
+				if e3, p3 := vC03Unmarshal(pre, body[:n]); !p3 && e3 == nil && vC03PktEqual(vC03DumpPkt(pre), got) {
+					if pk.Size() != n {
+						res.bad("consumed", fmt.Sprintf("%s decoded %x as %T consuming %d bytes, Size() = %d", what, body, pk, n, pk.Size()))
+					}
+					break
+				}
+			}
+			return
+		}
+		if pk.Size() != len(body) {
+			res.bad("consumed", fmt.Sprintf("%s accepted the %d byte body %x as %T, Size() = %d", what, len(body), body, pk, pk.Size()))
+		} else if p2 || e2 != nil || !bytes.Equal(b, body) {
+			res.bad("remarshal", fmt.Sprintf("%s accepted the canonical body %x as %T, which re-marshals to %x", what, body, pk, b))
+		}
+	}
+	err, pan := vC03Unmarshal(rcv, body)
+	o1 := vC03ObsPkt(rcv, err, pan)
+	judge("UnmarshalBinary", rcv, err, pan)
+	a, _ := vC03Pair()
+	for _, s := range c.l[4].l {
+		p, ok := vC03PktFromSx(s)
+		if !ok {
+			res.obs = vL(vZ(-1))
+			return
+		}
+		if werr := a.WritePacket(vC03BuildPkt(p), 1); werr != nil {
+			res.bad("wire", "WritePacket failed: "+werr.Error())
+		}
+	}
+	payload := body
+	if mt == 17 || mt == 15 {
+		payload = append([]byte{0}, body...)
+	}
+	pk, derr, dpan := vC03Decode(a, mt, payload)
+	o2 := vC03ObsPkt(pk, derr, dpan)
+	judge("DecodeMessage", pk, derr, dpan)
+	res.obs = vOk(o1, o2)
+}
+
 func vC03Run(c vSx) *vC03Res {
 	res := &vC03Res{hist: "bad"}
 	if !c.isList() || len(c.l) < 2 || !c.l[0].isInt() {
@@ -1865,6 +1948,9 @@ func vC03Run(c vSx) *vC03Res {
 		return res
 	case 6:
 		vC03RunReuse(c, res)
+		return res
+	case 7:
+		vC03RunGrammar(c, res)
 		return res
 	}
 	res.obs = vL(vZ(-1))
@@ -2569,7 +2655,121 @@ func vC03GenReuse(r *vRng) vSx {
 	return vL(vZ(6), vI(kind), vU(tid), vLs(init), vLs(ds))
 }
 
+// ---- grammar-derived command bodies: each field position carries each AMF0 type in turn ----
+// the AMF0 alternatives (canonical encodings as package amf0 marshals them)
+func vC03Alternatives() []*vC03Node {
+	one := &vC03Node{kind: 0, bits: vC03One}
+	kv := []vC03Prop{{key: []byte("k"), val: &vC03Node{kind: 2, s: []byte("v")}}, {key: []byte("n"), val: one}}
+	return []*vC03Node{
+		{kind: 5}, {kind: 6}, one, {kind: 0, bits: vC03Two}, {kind: 1, b: true}, {kind: 1, b: false},
+		{kind: 2, s: []byte{}}, {kind: 2, s: []byte("info")},
+		{kind: 3}, {kind: 3, props: kv},
+		{kind: 8}, {kind: 8, count: 2, props: kv},
+		{kind: 10}, {kind: 10, props: kv},
+	}
+}
+
+// the fields of a command body for a kind, as the protocol defines them
+func vC03Fields(kind int, tid uint64) []*vC03Node {
+	names := []string{"connect", "_result", "closeStream", "createStream", "_result", "publish", "play"}
+	info := &vC03Node{kind: 3, props: []vC03Prop{{key: []byte("code"), val: &vC03Node{kind: 2, s: []byte("NetConnection.Connect.Success")}}}}
+	f := []*vC03Node{{kind: 2, s: []byte(names[kind])}, {kind: 0, bits: tid}}
+	switch kind {
+	case 0, 1:
+		f = append(f, &vC03Node{kind: 3, props: []vC03Prop{{key: []byte("app"), val: &vC03Node{kind: 2, s: []byte("live")}}}}, info)
+	case 2:
+		f = append(f, &vC03Node{kind: 5}, info)
+	case 3:
+		f = append(f, &vC03Node{kind: 5})
+	case 4:
+		f = append(f, &vC03Node{kind: 5}, &vC03Node{kind: 0, bits: vC03One})
+	case 5:
+		f = append(f, &vC03Node{kind: 5}, &vC03Node{kind: 2, s: []byte("stream")}, &vC03Node{kind: 2, s: []byte("live")})
+	case 6:
+		f = append(f, &vC03Node{kind: 5}, &vC03Node{kind: 2, s: []byte("stream")})
+	}
+	return f
+}
+
+func vC03EncFields(f []*vC03Node) []byte {
+	var out []byte
+	for _, n := range f {
+		b, _ := vC03Build(n).MarshalBinary()
+		out = append(out, b...)
+	}
+	return out
+}
+
+// requests the decoding endpoint has written, so that a response finds its request
+func vC03GrammarPre(kind int, tid uint64) []vSx {
+	switch kind {
+	case 1:
+		return []vSx{vC03PktSx(&vC03Pkt{kind: 0, name: []byte("connect"), tid: vC03One, obj: &vC03Node{kind: 3}})}
+	case 4:
+		return []vSx{vC03PktSx(&vC03Pkt{kind: 3, name: []byte("createStream"), tid: tid, obj: &vC03Node{kind: 5}})}
+	}
+	return nil
+}
+
+func vC03GrammarCase(kind int, tid uint64, mt int, f []*vC03Node) vSx {
+	return vL(vZ(7), vI(kind), vU(tid), vI(mt), vLs(vC03GrammarPre(kind, tid)), vB(vC03EncFields(f)))
+}
+
+// the systematic part: every kind x every field position x every alternative (the other
+// positions as the protocol defines them), with the full field list and with every shorter one
+func vC03GrammarSweep(run func(vSx)) {
+	alts := vC03Alternatives()
+	for kind := 0; kind <= 6; kind++ {
+		tid := vC03Two
+		if kind <= 1 {
+			tid = vC03One
+		}
+		base := vC03Fields(kind, tid)
+		for n := 1; n <= len(base); n++ {
+			run(vC03GrammarCase(kind, tid, 20, base[:n]))
+			for pos := 0; pos < n; pos++ {
+				for ai, alt := range alts {
+					f := append([]*vC03Node{}, base[:n]...)
+					f[pos] = alt
+					mt := 20
+					if (ai+pos+n)%5 == 0 {
+						mt = 17
+					}
+					run(vC03GrammarCase(kind, tid, mt, f))
+				}
+			}
+		}
+	}
+}
+
+// the random part: several positions replaced at once, generated trees as alternatives
+func vC03GenGrammar(r *vRng) vSx {
+	kind := r.intn(7)
+	tid := vC03GenTid(r)
+	if kind <= 1 && r.chance(3, 4) {
+		tid = vC03One
+	}
+	f := vC03Fields(kind, tid)
+	f = f[:r.rng(1, len(f))]
+	alts := vC03Alternatives()
+	for i, n := 0, r.rng(1, 3); i < n; i++ {
+		pos := r.intn(len(f))
+		if pos == 0 && r.chance(1, 2) {
+			continue
+		}
+		if r.chance(1, 3) {
+			f[pos] = vC03GenTree(r, r.rng(1, 3), false)
+		} else {
+			f[pos] = alts[r.intn(len(alts))]
+		}
+	}
+	return vC03GrammarCase(kind, tid, r.pickInt(20, 20, 17, 18, 15), f)
+}
+
 func vC03Gen(r *vRng) vSx {
+	if r.chance(1, 9) {
+		return vC03GenGrammar(r)
+	}
 	if r.chance(1, 7) {
 		return vC03GenReuse(r)
 	}
@@ -2626,6 +2826,8 @@ func TestVerifC03(t *testing.T) {
 		}
 		runOne(vL(vZ(0), vC03PktSx(p)))
 	}
+	// grammar sweep: every command codec x field position x AMF0 type
+	vC03GrammarSweep(runOne)
 	// truncation sweep: every prefix of the bytes of some packets, on the receiver of their kind
 	// (each field boundary and every position inside a field is a cut)
 	for i, np := 0, k.N(12, 300); i < np; i++ {
